@@ -1571,7 +1571,20 @@ class TemplateExpression:
 
     def __call__(self, *args: t.Any, **kwargs: t.Any) -> t.Any | None:
         context = self._template.new_context(dict(*args, **kwargs))
-        consume(self._template.root_render_func(context))
+
+        if self._template.environment.is_async:
+            # Like Template.render: drive the async render function to the
+            # end from sync code.
+            import asyncio
+
+            async def consume_async() -> None:
+                async for _ in self._template.root_render_func(context):  # type: ignore
+                    pass
+
+            asyncio.run(consume_async())
+        else:
+            consume(self._template.root_render_func(context))
+
         rv = context.vars["result"]
         if self._undefined_to_none and isinstance(rv, Undefined):
             rv = None
